@@ -125,3 +125,72 @@ Section Interp.
                     (fun m c o' => run_tab body rest m c o') gs o
     end.
 End Interp.
+
+(* ------------------------------------------------------------------ "assigning next" (build_dispatch_tables) *)
+(* the body of the loop `for (auto& spec : m.specs)` that computes what is stored through spec.info->next *)
+Inductive ncond :=
+| NSizeIs (n : nat)                (* nexts.size() == n *)
+| NSizeGt (n : nat)                (* nexts.size() > n *)
+| NEmpty                           (* nexts.empty() *)
+| NNot (c : ncond).
+
+Inductive nval := VDefPf (* nexts.front()->info->pf *) | VNotImplemented (* m.info->not_implemented *) | VAmbiguous (* m.info->ambiguous *).
+
+Inductive nstmt :=
+| NSkip
+| NSeq (a b : nstmt)
+| NCandidates                      (* candidates = the definitions `other` with is_base(other, &spec), in catalog order *)
+| NBest                            (* auto nexts = best(candidates); *)
+| NIf (c : ncond) (t e : nstmt)
+| NSetNext (v : nval)              (* next = v;   (`void* next;` is declared uninitialised) *)
+| NStore.                          (* if (spec.info->next) *spec.info->next = next; *)
+
+Record nlocals := mk_nl { n_cands : option (list nat); n_nexts : option (list nat); n_next : option cell; n_stored : option cell }.
+
+Section Next.
+  Variables (L : lattice) (specs : list (list nat)) (sp : list nat).
+
+  Fixpoint nceval (l : nlocals) (c : ncond) : option bool :=
+    match c with
+    | NSizeIs n => match n_nexts l with Some x => Some (length x =? n) | None => None end
+    | NSizeGt n => match n_nexts l with Some x => Some (n <? length x) | None => None end
+    | NEmpty => match n_nexts l with Some x => Some (match x with [] => true | _ => false end) | None => None end
+    | NNot c => match nceval l c with Some b => Some (negb b) | None => None end
+    end.
+
+  (* None: a local read before it is written (among them: `next` stored while still uninitialised) *)
+  Fixpoint nexec (s : nstmt) (l : nlocals) : option nlocals :=
+    match s with
+    | NSkip => Some l
+    | NSeq a b => match nexec a l with Some l' => nexec b l' | None => None end
+    | NCandidates =>
+        Some (mk_nl (Some (filter (fun o => is_base L (nth o specs []) sp false) (seq 0 (length specs))))
+                    (n_nexts l) (n_next l) (n_stored l))
+    | NBest => match n_cands l with
+               | Some c => Some (mk_nl (n_cands l) (Some (best L specs c)) (n_next l) (n_stored l))
+               | None => None
+               end
+    | NIf c t e => match nceval l c with Some true => nexec t l | Some false => nexec e l | None => None end
+    | NSetNext v =>
+        match v with
+        | VNotImplemented => Some (mk_nl (n_cands l) (n_nexts l) (Some CNi) (n_stored l))
+        | VAmbiguous => Some (mk_nl (n_cands l) (n_nexts l) (Some CAmb) (n_stored l))
+        | VDefPf => match n_nexts l with
+                    | Some (x :: _) => Some (mk_nl (n_cands l) (n_nexts l) (Some (CDef x)) (n_stored l))
+                    | _ => None
+                    end
+        end
+    | NStore => match n_next l with
+                | Some c => Some (mk_nl (n_cands l) (n_nexts l) (n_next l) (Some c))
+                | None => None
+                end
+    end.
+
+  (* what is stored through the definition's next pointer (when it registered one) *)
+  Definition run_next (body : nstmt) : option cell :=
+    match nexec body (mk_nl None None None None) with
+    | Some l => n_stored l
+    | None => None
+    end.
+End Next.
+
